@@ -107,6 +107,18 @@ func runC13(c *CaseCtx) (res CaseResult) {
 	s.Target.InForm = pickStructForm(s.Target.InForm, s.Target.In, r)
 	dedupeTypes(&s)
 	fixDelivery(&s, r)
+	if r.Intn(4) == 0 {
+		// two distinct converters of ONE Go function type: both are supplied
+		// converters and both must be listed
+		d := posFn([]int{r.Intn(4)}, []int{r.Intn(4)})
+		d2 := d
+		if r.Intn(2) == 0 {
+			d2.Deliver = DelRaw
+		}
+		s.Convs = append(s.Convs, d, d2)
+		s.AllowDup = true
+		res.obs("cases_with_same_typed_converters", 1)
+	}
 	res.Key = s.Key()
 	res.NonTrivial = len(s.Target.In) >= 2 || len(s.Convs) > 0
 
@@ -213,14 +225,21 @@ func c13Inspector(s *Scenario, cf *callFacts, hop []Label, res *CaseResult) func
 					res.violate("C13", "converter-missing", fmt.Sprintf("Converters lacks c%d (supplied through ConverterFunc)", i), det)
 				}
 			case DelRaw:
-				found := false
-				for _, f := range ue.Converters {
-					if f != nil && reflect.TypeOf(f.Func()) == b.Type {
-						found = true
+				// raw functions are wrapped in a fresh Func: match by Go type
+				// and multiplicity (number of supplied converters of that type)
+				want, have := 0, 0
+				for _, b2 := range in.Convs {
+					if b2.Type == b.Type && b2.Spec.Deliver != DelGen {
+						want++
 					}
 				}
-				if !found {
-					res.violate("C13", "converter-missing", fmt.Sprintf("Converters lacks a Func for raw converter c%d", i), det)
+				for _, f := range ue.Converters {
+					if f != nil && reflect.TypeOf(f.Func()) == b.Type {
+						have++
+					}
+				}
+				if have < want {
+					res.violate("C13", "converter-missing", fmt.Sprintf("Converters lists %d function(s) of the Go type of raw converter c%d, %d were supplied", have, i, want), det)
 				}
 			}
 		}
